@@ -286,6 +286,11 @@ func (a *AggregationProcess) ForAllExpiredFlowRecordsDo(callback FlowKeyRecordMa
 		}
 		err := callback(*pqItem.flowKey, pqItem.flowRecord)
 		if err != nil {
+			// The item was popped from the priority queue but the flow record is
+			// still in the map: put the item back, with its deadlines unchanged, so
+			// that the flow is considered again by the next call. Otherwise the flow
+			// record would stay in the map forever and never be exported again.
+			heap.Push(&a.expirePriorityQueue, pqItem)
 			return fmt.Errorf("callback execution failed for popped flow record with key: %v, record: %v, error: %v", pqItem.flowKey, pqItem.flowRecord, err)
 		}
 		// Delete the flow record if it is expired because of inactive expiry timeout.
